@@ -228,6 +228,19 @@ func verOf(s string) (byte, bool) {
 	return 0, false
 }
 
+// failWriter accepts `left` bytes, then fails every write
+type failWriter struct{ left int }
+
+func (w *failWriter) Write(p []byte) (int, error) {
+	if len(p) <= w.left {
+		w.left -= len(p)
+		return len(p), nil
+	}
+	n := w.left
+	w.left = 0
+	return n, errors.New("write failed")
+}
+
 func pack(p packets.Packet) ([]byte, error) {
 	var w bytes.Buffer
 	err := p.Pack(&w)
@@ -392,6 +405,22 @@ func (d *codecDrv) Step(line string) string {
 			datas = append(datas, b)
 		}
 		return d.keep(ver, datas)
+	case "pf":
+		// a Pack that FAILS part-way: the packet is encoded into a writer that accepts n bytes and then errors (a connection
+		// that dies while a packet is flushed). Whatever the encoder keeps between calls (pooled scratch buffers) must not
+		// carry anything over into the next encode: the ops that follow re-encode as usual.
+		if len(f) != 4 {
+			return "bad-op"
+		}
+		ver, ok := verOf(f[1])
+		data, err := unhex(f[2])
+		if !ok || err != nil {
+			return "bad-op"
+		}
+		if q, err, _ := readOne(ver, data); err == nil {
+			_ = q.Pack(&failWriter{left: drv.Atoi(f[3])})
+		}
+		return "pf"
 	case "dec", "msg", "alloc":
 		if len(f) != 3 {
 			return "bad-op"
